@@ -19,7 +19,7 @@ import random
 from .common import Nat, Raw, coq
 
 
-def gen_spec(rng, ne16=False, max_blocks=4, first=None, dim=2, padmodes=False, reuse=False):
+def gen_spec(rng, ne16=False, max_blocks=4, first=None, dim=2, padmodes=False, reuse=False, evenk=False):
     """derive a network.  ne16=True restricts kernels to {1,3} (NE16 cost model).  `first` forces the
     first block kind ('dw', 'addin', ...) so that rare producer->consumer pairs are always reached."""
     cin = rng.randint(2 if ne16 else 1, 4)    # a 1->1 conv. is depthwise for the library; NE16 models only 3x3 depthwise
@@ -38,6 +38,15 @@ def gen_spec(rng, ne16=False, max_blocks=4, first=None, dim=2, padmodes=False, r
             elif r_ < 0.35 and nd.get('valid_ok') and nd['ks'] > 1 and st['hw'] - nd['ks'] + 1 >= 2:
                 nd['pad'] = 'valid'
             nd.pop('valid_ok', None)
+            if evenk and nd.get('stride', 1) == 1 and rng.random() < 0.3:
+                # padding='same' with even / mixed kernels and dilation 1..3 (PyTorch pads the odd remainder on the right / bottom);
+                # also inside residual adds (the output keeps the input size)
+                nd['pad'] = 'same'
+                nd['ks'] = rng.choice([2, 4, [2, 3], [3, 2], 3] if dim == 2 else [2, 4, 3])
+                nd['dil'] = rng.choice([1, 2, 3])
+                kmax = max(nd['ks']) if isinstance(nd['ks'], list) else nd['ks']
+                if 'pm' in nd and (nd['dil'] * (kmax - 1)) // 2 + 1 >= st['hw']:
+                    nd.pop('pm')
         nodes.append(nd)
         st['cur'] = len(nodes) - 1
         return st['cur']
@@ -64,7 +73,7 @@ def gen_spec(rng, ne16=False, max_blocks=4, first=None, dim=2, padmodes=False, r
             co = rng.randint(2, 6)
             j_ = conv(st['cur'], co, stride=stride, valid_ok=True)
             st['c'] = co
-            st['hw'] = (st['hw'] + 2 * pad_of(nodes[j_]) - nodes[j_]['ks']) // stride + 1
+            st['hw'] = out_hw(nodes[j_], st['hw'])
             tail(co)
         elif kind == 'dw':
             push({'k': 'dw', 'src': st['cur'], 'c': c, 'ks': 3, 'bias': rng.random() < 0.7})
@@ -101,6 +110,8 @@ def gen_spec(rng, ne16=False, max_blocks=4, first=None, dim=2, padmodes=False, r
             if st['hw'] >= 4 and st['hw'] % 2 == 0 and rng.random() < 0.7:
                 push({'k': 'pool', 'src': st['cur'], 't': rng.choice(['max2', 'avg2'])})
                 st['hw'] //= 2
+            if 'pm' in nodes[j_] and pad_of(nodes[j_]) + 1 >= st['hw']:      # reflect / circular need padding < size, also at the 2nd call site
+                nodes[j_].pop('pm')
             push({'k': 'reuse', 'src': st['cur'], 'of': j_})
             tail(c, p_bn=0.0)
         elif kind == 'pool':
@@ -161,8 +172,16 @@ def kind(nd):
 
 def pad_of(nd):
     """numeric padding per side of a conv / depthwise node ('same' only with odd kernels and stride 1)"""
-    pd = nd.get('pad', nd['ks'] // 2)
-    return nd['ks'] // 2 if pd == 'same' else 0 if pd == 'valid' else pd
+    k = max(nd['ks']) if isinstance(nd['ks'], list) else nd['ks']
+    pd = nd.get('pad', k // 2)
+    return (nd.get('dil', 1) * (k - 1) + 1) // 2 if pd == 'same' else 0 if pd == 'valid' else pd
+
+
+def out_hw(nd, hw):
+    """spatial output size of a conv / depthwise node ('same': stride 1, size kept; otherwise dilation 1, int kernel)"""
+    if nd.get('pad') == 'same':
+        return hw
+    return (hw + 2 * pad_of(nd) - nd['ks']) // nd.get('stride', 1) + 1
 
 
 def shapes(nodes):
@@ -174,7 +193,7 @@ def shapes(nodes):
             out.append((nd['c'], nd['hw']))
         elif k == 'conv':
             c, hw = out[nd['src']]
-            out.append((nd['cout'], (hw + 2 * pad_of(nd) - nd['ks']) // nd['stride'] + 1))
+            out.append((nd['cout'], out_hw(nd, hw)))
         elif k == 'dw':
             out.append(out[nd['src']])
         elif k in ('bn', 'relu'):
@@ -195,7 +214,7 @@ def shapes(nodes):
                 out.append((t['cout'], 0))
             else:
                 c, hw = out[nd['src']]
-                out.append((t.get('cout', c), (hw + 2 * pad_of(t) - t['ks']) // t.get('stride', 1) + 1))
+                out.append((t.get('cout', c), out_hw(t, hw)))
     return out
 
 
@@ -215,11 +234,13 @@ def build(nodes, seed):
                 k = nd['k']
                 m = None
                 if k == 'conv':
-                    m = Conv(nd['cin'], nd['cout'], nd['ks'], stride=nd['stride'], padding=nd.get('pad', nd['ks'] // 2), bias=nd['bias'],
-                             padding_mode=nd.get('pm', 'zeros'))
+                    ks_ = tuple(nd['ks']) if isinstance(nd['ks'], list) else nd['ks']
+                    m = Conv(nd['cin'], nd['cout'], ks_, stride=nd['stride'], padding=nd.get('pad', pad_of(nd)), bias=nd['bias'],
+                             padding_mode=nd.get('pm', 'zeros'), dilation=nd.get('dil', 1))
                 elif k == 'dw':
-                    m = Conv(nd['c'], nd['c'], nd['ks'], padding=nd.get('pad', nd['ks'] // 2), groups=nd['c'], bias=nd['bias'],
-                             padding_mode=nd.get('pm', 'zeros'))
+                    ks_ = tuple(nd['ks']) if isinstance(nd['ks'], list) else nd['ks']
+                    m = Conv(nd['c'], nd['c'], ks_, padding=nd.get('pad', pad_of(nd)), groups=nd['c'], bias=nd['bias'],
+                             padding_mode=nd.get('pm', 'zeros'), dilation=nd.get('dil', 1))
                 elif k == 'bn':
                     m = nn.BatchNorm2d(nd['c']) if nd['dim'] == 2 else nn.BatchNorm1d(nd['c'])
                 elif k == 'relu' and not nd['fn']:
@@ -334,23 +355,32 @@ def mps_layers(nodes, mps):
     return out
 
 
-def set_alphas(rng, mps, margin=0.05, zero_bias=0.0):
-    """random selection coefficients with a guaranteed arg-max margin (per vector / per column)"""
+def alpha_targets(rng, mps, margin=0.05):
+    """random selection coefficients with a guaranteed arg-max margin (per vector / per column), as (name, parameter,
+    target tensor) triples; the parameters are NOT touched"""
     import torch
     done = set()
+    out = []
+    for name, p in mps.named_nas_parameters():
+        if not name.endswith('.alpha') or id(p) in done:
+            continue
+        done.add(id(p))
+        n = p.shape[0]
+        cols = 1 if p.dim() == 1 else p.shape[1]
+        vals = []
+        for c in range(cols):
+            k = rng.randrange(n)
+            col = [round(rng.uniform(-2, 2), 3) for _ in range(n)]
+            top = max(col)
+            col[k] = round(top + margin + rng.random() * rng.choice([0.01, 0.5, 2.0]), 3)
+            vals.append(col)
+        t = torch.tensor(vals, dtype=torch.float32).t()
+        out.append((name, p, (t[:, 0] if p.dim() == 1 else t).clone()))
+    return out
+
+
+def set_alphas(rng, mps, margin=0.05, zero_bias=0.0):
+    import torch
     with torch.no_grad():
-        for name, p in mps.named_nas_parameters():
-            if not name.endswith('.alpha') or id(p) in done:
-                continue
-            done.add(id(p))
-            n = p.shape[0]
-            cols = 1 if p.dim() == 1 else p.shape[1]
-            vals = []
-            for c in range(cols):
-                k = rng.randrange(n)
-                col = [round(rng.uniform(-2, 2), 3) for _ in range(n)]
-                top = max(col)
-                col[k] = round(top + margin + rng.random() * rng.choice([0.01, 0.5, 2.0]), 3)
-                vals.append(col)
-            t = torch.tensor(vals, dtype=torch.float32).t()
-            p.copy_(t[:, 0] if p.dim() == 1 else t)
+        for name, p, t in alpha_targets(rng, mps, margin):
+            p.copy_(t)
